@@ -427,6 +427,17 @@ func (w *World) BuildReq(e Event) Req {
 		if e.Junk == "missing" {
 			rq.Path = "/auth/2fa/" + e.Kind + "/email/verify/end"
 		}
+	case "Get":
+		rq.Method = "GET"
+		rq.Path = map[string]string{"login": "/auth/login", "register": "/auth/register", "recover": "/auth/recover",
+			"recoverEnd": "/auth/recover/end?token=abc", "otpLogin": "/auth/otp/login", "otpAdd": "/auth/otp/add", "otpClear": "/auth/otp/clear",
+			"totpConfirm": "/auth/2fa/totp/confirm", "totpRemove": "/auth/2fa/totp/remove", "totpValidate": "/auth/2fa/totp/validate",
+			"smsConfirm": "/auth/2fa/sms/confirm", "smsRemove": "/auth/2fa/sms/remove", "smsValidate": "/auth/2fa/sms/validate",
+			"recoveryRegen": "/auth/2fa/recovery/regen", "totpEmailVerify": "/auth/2fa/totp/email/verify",
+			"smsEmailVerify": "/auth/2fa/sms/email/verify"}[e.K]
+		if rq.Path == "" {
+			rq.Path = "/auth/nothing-here"
+		}
 	case "Logout":
 		rq.Method, rq.Path = e.Method, "/auth/logout"
 	case "Probe":
